@@ -315,12 +315,9 @@ func checkRevocation(cert *x509.Certificate, b *crl.Bundle, signingTime time.Tim
 			if !signingTime.IsZero() && !extensions.invalidityDate.IsZero() &&
 				signingTime.Before(extensions.invalidityDate) {
 				// signing time is before the invalidity date which means the
-				// certificate is not revoked at the time of signing.
-				return &result.ServerResult{
-					Result:           result.ResultOK,
-					Server:           crlURL,
-					RevocationMethod: result.RevocationMethodCRL,
-				}, nil
+				// certificate is not revoked at the time of signing by this
+				// entry; other entries still need to be checked.
+				continue
 			}
 
 			switch revocationEntry.ReasonCode {
